@@ -211,4 +211,5 @@ def big_integer_cases():
 def run_shard(ctx, rec):
     drive_enum(ctx, rec, "unit", big_integer_cases(), check_unit, exhaustive=True, tag="unit/big_integers")
     drive(ctx, rec, "model", MS.model_cases(cmds=CMDS + ["Copy", "Sum"]), check_model, ctx.n(1000, 20000))
-    drive(ctx, rec, "unit", G.unit_case(CMDS, max_rank=2, min_cells=2, two_distinct=True, close=True), check_unit, ctx.n(6000, 200000))
+    drive(ctx, rec, "unit", G.unit_case(CMDS, max_rank=2, min_cells=2, two_distinct=True, close=True,
+                                       dtypes=("float64", "int64", "float64", "int64", "uint64")), check_unit, ctx.n(6000, 200000))
